@@ -330,7 +330,14 @@ class _Interval:
         if self._top._halfway_tree:
             interval = self
             while True:
-                interval._split_exact(0.5 * (interval._end + interval._start))
+                halfway = self._top._round(0.5 * (interval._end + interval._start))
+                if not interval._start < halfway < interval._end:
+                    # The rounding grid is as fine as floating point resolves here, and the rounded halfway point is one
+                    # of the end points: there is nothing left to halve (the child would be this interval again), so
+                    # split at the requested point itself.
+                    interval._split_exact(midway)
+                    break
+                interval._split_exact(halfway)
                 # interval._midway is now the rounded halfway point.
                 if midway > interval._midway:
                     interval = interval._right_child
